@@ -1,1 +1,359 @@
-fn main(){}
+//! `simthreads` — C19: concurrent runs of one compiled filter equal isolated runs.
+//!
+//! * S0 (type level): the assertions in `static_facts` must compile.
+//! * `oracle <pi> <xi>`: a fresh process that does nothing but compile program `pi` and run it
+//!   on input `xi`; prints the output stream. This is the *isolated* run.
+//! * `run <table.json> <seed> <iters> <random|pct> <dir>`: shuttle-scheduled threads sharing one
+//!   `Arc<Filter>` per program; each thread's stream must equal the isolated one.
+//! * `replay <table.json> <schedule-file>`: re-executes one persisted failing schedule.
+use jaq_all::data::{Ctx, Data, DataKind, Filter, Runner as JaqRunner};
+use jaq_all::jaq_core::Vars;
+use jaq_all::jaq_std::input::RcIter;
+use jaq_all::json::Val;
+use serde::{Deserialize, Serialize};
+use shuttle::rand::Rng;
+use shuttle::sync::{Arc, Mutex};
+use std::collections::BTreeMap;
+
+#[allow(dead_code)]
+mod static_facts {
+    //! S0: a compiled filter is immutable shared data. If one of these bounds stops holding,
+    //! this crate does not compile and the check reports class S0.
+    fn send_sync<T: Send + Sync>() {}
+    pub fn all() {
+        send_sync::<jaq_all::data::Filter>();
+        send_sync::<jaq_all::jaq_core::Filter<jaq_all::jaq_core::data::JustLut<jaq_all::json::Val>>>();
+        send_sync::<jaq_all::jaq_core::Lut<jaq_all::data::DataKind>>();
+        #[cfg(feature = "sync")]
+        send_sync::<jaq_all::json::Val>();
+    }
+}
+
+/// Terminating programs touching everything that might tempt a cache or hidden shared state.
+pub const PROGRAMS: &[&str] = &[
+    ".",
+    ".[]?",
+    "[.[]? | tostring]",
+    "test(\"a\"; \"i\")",
+    "test(\"a\"; \"\")",
+    "test(\"A\")",
+    "[match(\"(?<x>[a-z]+)\"; \"g\").captures[].string]",
+    "[scan(\"[0-9]+\")]",
+    "sub(\"(?<d>[0-9])\"; \"<\\(.d)>\"; \"g\")",
+    "splits(\", *\")",
+    "ascii_downcase, ascii_upcase",
+    "label $a | label $b | (1, break $b, 2), 3",
+    "[label $out | foreach (1, 2, 3, 4) as $x (0; . + $x; if . > 5 then ., break $out else . end)]",
+    "def f($n): if $n <= 0 then [] else [$n] + f($n - 1) end; f(6)",
+    "def fac: if . <= 1 then 1 else . * (. - 1 | fac) end; [range(1; 8) | fac]",
+    "reduce range(0; 50) as $i ([]; . + [$i * $i]) | add",
+    "[limit(5; repeat(1, 2))]",
+    "[range(0; 10)] | map(select(. % 2 == 0)) | length",
+    "to_entries?",
+    "[paths]",
+    "[.. | numbers]",
+    "(.a, .b) = 1",
+    ".[0]? |= . + 1",
+    ".a.b.c = 5",
+    "del(.a?, .[0]?)",
+    "tojson | fromjson",
+    "@base64 \"\\(.)\" | @base64d",
+    "@uri \"x=\\(.)\"",
+    "@sh \"\\(tostring)\"",
+    "@csv \"\\([1, \"a\", null])\", @tsv \"\\([1, \"b\\tc\"])\"",
+    "[1, [2, 3]] | toyaml, tocbor, toxml?",
+    "\"a: [1, 2]\" | fromyaml",
+    "\"<a x=\\\"1\\\">t</a>\" | fromxml | toxml",
+    "1700000000 | todate, (gmtime | mktime)",
+    "\"2024-02-29T12:00:00Z\" | fromdate",
+    "\"10:30 2024-01-02\" | strptime(\"%H:%M %Y-%m-%d\") | mktime",
+    "1700000000 | strftime(\"%A %d %B %Y\")",
+    "[splits(\"a\"; \"g\")]?",
+    "sort_by(.a?)?, group_by(.a?)?, unique_by(length)?",
+    "[.[]? | length] | sort | (min, max, add)",
+    "ltrimstr(\"a\") | rtrimstr(\"b\") | explode | implode",
+    "try error(\"x\") catch ., (try (1, error({a: 1}), 2) catch .a)",
+    "first(range(10; 0; -3)), [limit(3; range(0; 100))], nth(2; range(5))",
+    "[., 1] | (.[0] | tojson) as $x | {($x): .[1]}",
+    "path(..) | select(length > 1)",
+    "getpath([\"a\", \"b\"])?, ([paths(type == \"number\")] | length)",
+    "walk(if type == \"number\" then . + 1 else . end)",
+    "with_entries(.value |= tostring)?",
+    "@text, @json, @html \"<\\(.)>\"",
+    "label $a | (1, (label $b | (2, break $a, 3)), 4)",
+    "label $a | (1, 2, (label $b | (3, (label $c | (4, break $b, 5)), 6)), 7, break $a, 8)",
+    "def f: label $l | (., (if . < 3 then . + 1 | f else break $l end), 10 * .); 0 | f",
+    "label $out | foreach (1, 2, 3, 4, 5) as $x (0; . + $x; ., (label $in | (., break $in, 99)), if . > 5 then break $out else empty end)",
+    "range(0; 6) | label $x | (., (if . % 2 == 0 then break $x else . * 10 end))",
+    "[.[]?] | (map(. as $x | [$x, $x]) | add) as $d | $d | length",
+    "10000000000000000000000 + 1, (1 / 3), (pow(2; 64) | tostring)",
+    "(infinite | tostring), (nan | isnan), ([nan] | sort | length)",
+    "[foreach range(5) as $i (null; $i; [$i, .])] | last",
+    "any(.[]?; . == 1), all(.[]?; . != null), isempty(.[]?)",
+    "limit(3; recurse(if . < 3 then . + 1 else empty end)?)",
+    "[.[]? as [$a, $b] | {a: $a, b: $b}]",
+    "(.a? // null) as $x | (.b? // [null]) as [$y] | [$x, $y]",
+    "tostring | ascii_downcase | test(\"NULL\"; \"ix\")",
+    "[.[]? | tostring | capture(\"(?<n>[0-9]+)\")?]",
+];
+
+pub const INPUTS: &[&str] = &[
+    "null",
+    "1",
+    "\"Banana, aardvark,A1b22\"",
+    "[1, 2, 3]",
+    "{\"a\": {\"b\": {\"c\": 1}}, \"b\": [2]}",
+    "[[1, 2], [3, 4]]",
+    "[{\"a\": 2, \"b\": \"x\"}, {\"a\": 1, \"b\": \"yy\"}]",
+    "\"ab\"",
+];
+
+#[derive(Serialize, Deserialize, Clone, Debug)]
+pub struct Table {
+    pub programs: Vec<String>,
+    pub inputs: Vec<String>,
+    /// table[pi][xi] = output stream (each item "= json" or "! error"), capped
+    pub table: Vec<Vec<Vec<String>>>,
+}
+
+const CAP: usize = 64;
+
+fn compile(code: &str) -> Result<Filter, String> {
+    jaq_all::data::compile(code).map_err(|e| format!("{} error(s)", e.len()))
+}
+
+fn parse(x: &str) -> Val {
+    jaq_all::fmts::read::json::parse_single(x.as_bytes()).expect("input is JSON")
+}
+
+/// Run `filter` on `input`, handing every item to `each` (which may yield to the scheduler).
+fn run_stream(filter: &Filter, input: Val, mut each: impl FnMut()) -> Vec<String> {
+    let runner = JaqRunner::default();
+    let empty: Box<dyn Iterator<Item = Result<Val, String>>> = Box::new(std::iter::empty());
+    let rc = RcIter::new(empty);
+    let data = Data { runner: &runner, lut: &filter.lut, inputs: &rc };
+    let ctx = Ctx::new(&data, Vars::new([]));
+    let mut out = Vec::new();
+    let mut it = filter.id.run((ctx, input));
+    loop {
+        each();
+        match it.next() {
+            None => break,
+            Some(Ok(v)) => out.push(format!("= {v}")),
+            Some(Err(e)) => {
+                out.push(match e.get_err() {
+                    Ok(e) => format!("! {e}"),
+                    Err(_) => "! <non-error exception>".to_string(),
+                });
+                break;
+            }
+        }
+        if out.len() >= CAP {
+            break;
+        }
+    }
+    out
+}
+
+struct Shared {
+    table: Table,
+    filters: Vec<Option<Filter>>,
+    /// order in which threads pulled (thread index per pull): the interleaving
+    order: Mutex<Vec<u8>>,
+    stats: std::sync::Mutex<Stats>,
+}
+
+#[derive(Default, Serialize, Clone)]
+struct Stats {
+    schedules: u64,
+    threads: u64,
+    pulls: u64,
+    recompiles: u64,
+    shared_value_runs: u64,
+    interleavings: std::collections::BTreeSet<u64>,
+    nontrivial_interleavings: u64,
+}
+
+fn fnv(b: &[u8]) -> u64 {
+    let mut h = 0xcbf29ce484222325u64;
+    for x in b {
+        h ^= *x as u64;
+        h = h.wrapping_mul(0x100000001b3);
+    }
+    h
+}
+
+fn scenario(sh: &Arc<Shared>) {
+    let mut rng = shuttle::rand::thread_rng();
+    let t: usize = rng.gen_range(2..=4);
+    sh.order.lock().unwrap().clear();
+    #[cfg(feature = "sync")]
+    let shared_input: Option<(usize, Val)> = {
+        let xi = rng.gen_range(0..sh.table.inputs.len());
+        Some((xi, parse(&sh.table.inputs[xi])))
+    };
+    let mut handles = Vec::new();
+    for k in 0..t {
+        let np = sh.table.programs.len();
+        let pi = loop {
+            let p = rng.gen_range(0..np);
+            if sh.filters[p].is_some() {
+                break p;
+            }
+        };
+        let xi = rng.gen_range(0..sh.table.inputs.len());
+        let recompile = rng.gen_range(0..10) == 0;
+        let pi2 = rng.gen_range(0..np);
+        let sh = sh.clone();
+        #[cfg(feature = "sync")]
+        let shared = if rng.gen_range(0..2) == 0 { shared_input.clone() } else { None };
+        handles.push(shuttle::thread::spawn(move || {
+            let filter = sh.filters[pi].as_ref().unwrap();
+            #[cfg(feature = "sync")]
+            let (xi, input) = match shared {
+                Some((xi, v)) => {
+                    sh.stats.lock().unwrap().shared_value_runs += 1;
+                    (xi, v)
+                }
+                None => (xi, parse(&sh.table.inputs[xi])),
+            };
+            #[cfg(not(feature = "sync"))]
+            let input = parse(&sh.table.inputs[xi]);
+            let mut pulls = 0u64;
+            let got = run_stream(filter, input, || {
+                // the only scheduling points: between pulls
+                shuttle::thread::sleep(std::time::Duration::from_millis(0));
+                sh.order.lock().unwrap().push(k as u8);
+                pulls += 1;
+            });
+            sh.stats.lock().unwrap().pulls += pulls;
+            let want = &sh.table.table[pi][xi];
+            if &got != want {
+                panic!(
+                    "MISMATCH {}",
+                    serde_json::json!({"program": sh.table.programs[pi], "input": sh.table.inputs[xi], "concurrent": got, "isolated": want})
+                );
+            }
+            if recompile {
+                // compiling another filter in the middle of other threads' runs
+                shuttle::thread::sleep(std::time::Duration::from_millis(0));
+                sh.stats.lock().unwrap().recompiles += 1;
+                match (compile(&sh.table.programs[pi2]), sh.filters[pi2].is_some()) {
+                    (Ok(f), true) => {
+                        let got = run_stream(&f, parse(&sh.table.inputs[xi]), || {
+                            shuttle::thread::sleep(std::time::Duration::from_millis(0));
+                        });
+                        let want = &sh.table.table[pi2][xi];
+                        if &got != want {
+                            panic!(
+                                "MISMATCH {}",
+                                serde_json::json!({"program": sh.table.programs[pi2], "input": sh.table.inputs[xi], "recompiled_concurrently": got, "isolated": want})
+                            );
+                        }
+                    }
+                    (Err(_), false) => {}
+                    (r, was) => panic!(
+                        "MISMATCH {}",
+                        serde_json::json!({"program": sh.table.programs[pi2], "compiles_concurrently": r.is_ok(), "compiles_isolated": was})
+                    ),
+                }
+            }
+        }));
+    }
+    for h in handles {
+        h.join().unwrap();
+    }
+    #[cfg(feature = "sync")]
+    if let Some((xi, v)) = shared_input {
+        // the shared value itself is unchanged by whatever the threads did with their handles
+        let now = format!("= {v}");
+        let orig = format!("= {}", parse(&sh.table.inputs[xi]));
+        if now != orig {
+            panic!("MISMATCH {}", serde_json::json!({"shared_value_changed": now, "original": orig}));
+        }
+    }
+    let order = sh.order.lock().unwrap().clone();
+    let mut st = sh.stats.lock().unwrap();
+    st.schedules += 1;
+    st.threads += t as u64;
+    // non-trivial: at least two threads alternate (not a concatenation of complete runs)
+    let mut switches = 0;
+    for w in order.windows(2) {
+        if w[0] != w[1] {
+            switches += 1;
+        }
+    }
+    if switches >= t {
+        st.nontrivial_interleavings += 1;
+    }
+    st.interleavings.insert(fnv(&order));
+}
+
+fn load_shared(table_path: &str) -> Arc<Shared> {
+    let table: Table = serde_json::from_str(&std::fs::read_to_string(table_path).expect("table")).expect("table json");
+    let filters = table.programs.iter().map(|p| compile(p).ok()).collect();
+    Arc::new(Shared { table, filters, order: Mutex::new(Vec::new()), stats: std::sync::Mutex::new(Stats::default()) })
+}
+
+fn config(dir: Option<&str>) -> shuttle::Config {
+    let mut cfg = shuttle::Config::new();
+    cfg.stack_size = 8 << 20;
+    cfg.failure_persistence = match dir {
+        Some(d) => shuttle::FailurePersistence::File(Some(d.into())),
+        None => shuttle::FailurePersistence::Print,
+    };
+    cfg.max_steps = shuttle::MaxSteps::FailAfter(2_000_000);
+    cfg
+}
+
+fn main() {
+    static_facts::all();
+    let args: Vec<String> = std::env::args().skip(1).collect();
+    let a = |i: usize| args.get(i).map(|s| s.as_str()).unwrap_or("");
+    match a(0) {
+        "list" => {
+            println!("{}", serde_json::json!({"programs": PROGRAMS, "inputs": INPUTS, "sync": cfg!(feature = "sync")}));
+        }
+        "oracle" => {
+            let pi: usize = a(1).parse().expect("pi");
+            let xi: usize = a(2).parse().expect("xi");
+            let out = match compile(PROGRAMS[pi]) {
+                Ok(f) => run_stream(&f, parse(INPUTS[xi]), || {}),
+                Err(e) => vec![format!("# does not compile: {e}")],
+            };
+            println!("{}", serde_json::to_string(&out).unwrap());
+        }
+        "run" => {
+            let sh = load_shared(a(1));
+            let seed: u64 = a(2).parse().expect("seed");
+            let iters: usize = a(3).parse().expect("iters");
+            let dir = a(5);
+            let sh2 = sh.clone();
+            let f = move || scenario(&sh2);
+            match a(4) {
+                "pct" => shuttle::Runner::new(shuttle::scheduler::PctScheduler::new_from_seed(seed, 3, iters), config(Some(dir))).run(f),
+                _ => shuttle::Runner::new(shuttle::scheduler::RandomScheduler::new_from_seed(seed, iters), config(Some(dir))).run(f),
+            };
+            let st = sh.stats.lock().unwrap().clone();
+            println!(
+                "STATS {}",
+                serde_json::json!({"schedules": st.schedules, "threads": st.threads, "pulls": st.pulls, "recompiles": st.recompiles,
+                    "shared_value_runs": st.shared_value_runs, "distinct_interleavings": st.interleavings.len(),
+                    "interleaving_hashes": st.interleavings.iter().take(100_000).collect::<Vec<_>>(),
+                    "nontrivial_interleavings": st.nontrivial_interleavings})
+            );
+        }
+        "replay" => {
+            let sh = load_shared(a(1));
+            let sched = shuttle::scheduler::ReplayScheduler::new_from_file(a(2)).expect("schedule file");
+            let sh2 = sh.clone();
+            shuttle::Runner::new(sched, config(None)).run(move || scenario(&sh2));
+            println!("replay: no mismatch");
+        }
+        _ => {
+            eprintln!("usage: simthreads list | oracle <pi> <xi> | run <table> <seed> <iters> <random|pct> <dir> | replay <table> <schedule>");
+            std::process::exit(2);
+        }
+    }
+    let _: BTreeMap<(), ()> = BTreeMap::new();
+}
